@@ -222,13 +222,3 @@ fn crypt_exemptions() {
     std::mem::forget(dec);
 }
 
-/// RC4 itself against the textbook algorithm for a 5..=16 byte key is NOT attempted symbolically (256-step key schedule
-/// over symbolic bytes); Rc4::new's documented precondition is checked: 1..=256 byte keys never panic.
-#[kani::proof]
-fn crypt_rc4_new_total() {
-    let key: [u8; 16] = kani::any();
-    let n: usize = kani::any();
-    kani::assume(n >= 1 && n <= 16);
-    let mut data = [0u8; 1];
-    Rc4::encrypt(&key[..n], &mut data);
-}
